@@ -588,6 +588,10 @@ def engine_selftests(meta, tier, seed):
             out["lemma_int_float_roundtrip"] = r3
             if not (r3["holds_up_to_2**53"] and r3["fails_at_2**53+1"]):
                 errors.append("engine self-test: lemma int_float_roundtrip not established: %s" % r3)
+            r4 = selftest.int_to_double_selftest(seed)
+            out["int_to_double_rounding"] = r4
+            if r4["disagreements"]:
+                errors.append("engine self-test: the rounding model of float(int) above 2**53 disagrees with CPython: %s" % r4["examples"])
     except AssertionError as e:
         errors.append("engine self-test: regex encoding disagrees with re: %s" % (e,))
     except Exception as e:
